@@ -346,6 +346,8 @@ type vDiff struct {
 	// left behind by a FAILED multi-call transaction (two CreateMany in one WithTx): the
 	// property quantifies over single requests, so these are counted, not judged
 	tolerated bool
+	// first seen right after a FAILED request: judged once a successful request followed
+	fromFail bool
 }
 
 func (r *vRun) specKey(k channel.Key) vKey {
@@ -963,7 +965,7 @@ func vReplay(ctx context.Context, h vHist, timeout time.Duration) (out vOut) {
 		open := func(id, sig, what string) {
 			now[id] = true
 			if _, seen := r.diffs[id]; !seen {
-				r.diffs[id] = &vDiff{sig: sig, what: what, step: step, tolerated: s.Cut > 0 && !ok}
+				r.diffs[id] = &vDiff{sig: sig, what: what, step: step, tolerated: s.Cut > 0 && !ok, fromFail: !ok}
 			}
 		}
 		// other-lease: the request has an entry of that name on a different leaseholder
@@ -1048,8 +1050,8 @@ func vReplay(ctx context.Context, h vHist, timeout time.Duration) (out vOut) {
 				r.stats["tolerated-chained-tx-leftovers"]++
 				continue
 			}
-			// judged after successful requests (the statement's antecedent)
-			if ok && s.T != "restart" && !d.reported {
+			// judged after successful requests (the statement's antecedent) and after restarts
+			if ok && (s.T != "restart" || !d.fromFail) && !d.reported {
 				d.reported = true
 				what := d.what
 				if d.step != step {
